@@ -83,7 +83,7 @@ STYLE0 = {'lead': [], 'trail': [], 'opl': [], 'opr': [], 'po': [], 'pc': [], 'cb
 
 
 def _plain_sheet(s):
-    return all(c.isascii() and (c.isalnum() or c == '_') for c in s)
+    return all(c.isascii() and (c.isalnum() or c == '_') for c in s) and not s[:1].isdigit()
 
 
 def sheet_prefix(sh):
